@@ -18,7 +18,8 @@ packet slot obtained with get_if_rx / get_if_tx in the runner arms clear_on_drop
 locked = true and the construction of IfMutexGuard; the guard is constructed only in utils::sync::mutex; its Drop clears the flag.
 """
 CLAUSES = ['a: exchange matching uses id and role', 'b: new-exchange gate', 'c: unclaimed messages discarded on every exit', 'd: drop / guard protocol',
-           'e: conditional mutex never held without a guard', 'f: no lost wake-up on the shared packet slots (Signal wakes a displaced waiter)']
+           'e: conditional mutex never held without a guard', 'f: no lost wake-up on the shared packet slots (Signal wakes a displaced waiter)',
+           'g: only a session-bearing message is answered with SessionNotFound (no self-feeding reply loop)']
 NOT_DECIDED = ['liveness: subsequent traffic keeps flowing', 'interleavings of concurrent exchanges']
 MIN_OBLIGATIONS = {'q': 22, 'd': 22, 'r': 22}
 
@@ -203,6 +204,29 @@ def check(R):
         md = [b for b in F.bodies.values() if b.focus and b.fn.startswith('utils::sync::signal::Signal::') and '::tests::' not in b.fn
               and any(c.endswith(('Registration::wake', 'Waker::wake', 'Waker::wake_by_ref')) for c in b.calls_summary)]
         R.expect('P3', 'utils::sync::signal::Signal::modify', 'a modification that asks for it wakes the registered waiter', len(md) >= 1, f'{[b.fn.split("::")[-2] for b in md]}', 'no wake call left in Signal')
+
+    # ---- g --------------------------------------------------------------------
+    with R.clause('g'):
+        # the receive path does not feed itself: the only unsolicited answer to a message without a session - the unsecured SessionNotFound
+        # status report - is sent only for a session-bearing (encrypted) message. Being unsecured and opening no session, the report is
+        # exactly the kind of message that gets NoSession at its receiver: answering it in kind bounces forever between two nodes.
+        hr = 'transport::TransportRunner::handle_rx_packet'
+        co = async_body(R, hr)
+        snf = [b for b in F.nested(hr) if b.kind == 'closure' and (any(st[1].get('op') == 'agg' and st[1].get('adt') == 'sc::SCStatusCodes' and st[1].get('var') == 'SessionNotFound' for i, j_, st in b.stmts())
+                                                                   or any(('agg', 'sc::SCStatusCodes', 'SessionNotFound') in prims.sources(b, a) for t in b.calls('sc::sc_write') for a in t.d['a']))]
+        R.floor('closure writing SCStatusCodes::SessionNotFound', len(snf), 1)
+        wsites = closure_arg_sites(co, snf[0].fn)
+        R.floor('write_packet(SessionNotFound) site', len(wsites), 1)
+
+        def encrypted():
+            e = set()
+            for t in co.calls('transport::plain_hdr::PlainHdr::is_encrypted'):
+                e |= prims.track_result(F, co, t).success
+            if not e:
+                from facts import GuardMissing
+                raise GuardMissing(f'{co.fn}: no PlainHdr::is_encrypted() test')
+            return e
+        R.cut('P2', co, 'answer a message that has no session with SessionNotFound', [t.bb for t in wsites], 'the message is session-bearing (plain header encrypted)', encrypted)
 
 
 def _fail_edges(R, body, callee):
